@@ -236,6 +236,8 @@ impl<Effect, Event> Command<Effect, Event> {
         // in the opposite order a task woken between the two reads would look abandoned.
         let waker_is_unique = Arc::strong_count(&arc_waker) < 2;
         std::sync::atomic::fence(Ordering::Acquire);
+        #[cfg(crux_verif)]
+        crate::verif::point("cmd.run_task.count_read");
         let task_is_ready = arc_waker.woken.load(Ordering::Acquire);
         #[cfg(crux_verif)]
         crate::verif::point("cmd.run_task.flag_read");
